@@ -94,17 +94,24 @@ Record cfgd := {
   d_upfunc : option presult;          (* UpstreamProxyFunc returning this constant *)
   d_upstream : option (str * str);
   d_pac : option pac_res;             (* what the PAC script returned for this request *)
-  d_direct : option bool;             (* DirectDomains.Match(hostname); None = no direct-domains list *)
+  d_direct : option (list (str * bool)); (* DirectDomains.Match on the names of this request (as written, ASCII
+                                            form); None = no direct-domains list; other names: false *)
   d_lh_mode : str;
-  d_is_localhost : bool               (* hp.isLocalhost(hostname) as observed *)
+  d_is_localhost : bool;              (* hp.isLocalhost(hostname) as observed *)
+  d_idna : list (str * str);          (* idna.Lookup.ToASCII on the non-ASCII names of this request; identity elsewhere *)
+  d_puny : list (str * str)           (* idna.ToASCII (plain Punycode) on them *)
 }.
+Fixpoint assoc_bool (k : str) (l : list (str * bool)) : bool :=
+  match l with [] => false | (a, v) :: r => if str_eqb k a then v else assoc_bool k r end.
 Definition cfg_of (d : cfgd) : config :=
   {| c_upfunc := match d_upfunc d with Some r => Some (fun _ => r) | None => None end;
      c_upstream := d_upstream d;
      c_pac := match d_pac d with Some r => Some (fun _ => r) | None => None end;
-     c_direct := match d_direct d with Some v => Some (fun _ => v) | None => None end;
+     c_direct := match d_direct d with Some l => Some (fun h => assoc_bool h l) | None => None end;
      c_lh_mode := d_lh_mode d;
-     c_is_localhost := fun _ => d_is_localhost d |}.
+     c_is_localhost := fun _ => d_is_localhost d;
+     c_idna := fun h => match assoc h (d_idna d) with Some a => a | None => h end;
+     c_puny := fun h => match assoc h (d_puny d) with Some a => a | None => h end |}.
 
 (* ---------- D3: the composed proxy function martian is given (hp.proxy.ProxyURL), called directly *)
 Record fcase := { fc_cfg : cfgd; fc_t : target; fc_out : presult }.
@@ -172,7 +179,8 @@ Definition agree_pair (c : ecase) (p q : part) : bool :=
   | (dp, tp, op), (dc, tc, oc) =>
       match t_kind tp, t_kind tc with
       | Plain, Connect =>
-          if str_eqb (t_scheme tp) (b "http") && str_eqb (spec_target_addr tp) (spec_target_addr tc) &&
+          if str_eqb (t_scheme tp) (b "http") &&
+             str_eqb (spec_target_addr (c_idna (cfg_of dp)) tp) (spec_target_addr (c_idna (cfg_of dc)) tc) &&
              hop_eqb (spec_hop (cfg_of dp) tp) (spec_hop (cfg_of dc) tc) &&
              Nat.ltb (ec_failures c) (effective_attempts (ec_attempts c)) then
             match obs_first_hop op, obs_first_hop oc with
